@@ -387,51 +387,58 @@ fn revert_step(shape: &[usize], npend: usize, ntop: usize, nbase: Option<usize>,
     // expected facts after a rebuilding revert: base ; updates of the first idx commands
     let empty: Level = [None; NK];
     let mut want = flat_of(&empty, &base);
-    // Vectors are built with `vec![..]` (one typed boxed array each) rather than by pushes into a
-    // with_capacity buffer: CBMC then keeps lengths and fat pointers constant when the real code
-    // reads them back (measured: the push variant of this harness exceeded 14 GB).
+    // The vectors handed to revert live in STACK buffers (Vec::from_raw_parts over a local array,
+    // never reallocated or freed: revert only truncates/clears, and everything is forgotten at the
+    // end). Reason (measured): when the real code clones a String / Keys / Bytes that it reads back
+    // from a heap vector element, CBMC no longer knows the length and the clone becomes a
+    // symbolic-size allocation + copy; every variant of this harness with heap vectors (pushes or
+    // vec![..]) exceeded 14 GB. With stack buffers the lengths stay constant.
     let mut ids = [0u8; 4];
-    let mut cmds: [Option<CommandData>; 2] = [None, None];
+    assert!(nc <= 2 && npend <= 1);
+    let ua = [any_upd(), any_upd()];
+    let ub = [any_upd(), any_upd()];
     let mut i = 0;
     while i < nc {
-        let u0 = any_upd();
-        let u1 = any_upd();
+        let us = if i == 0 { &ua } else { &ub };
+        assert!(shape[i] <= 2);
         if i < idx {
             if shape[i] >= 1 {
-                apply(&mut want, u0);
+                apply(&mut want, us[0]);
             }
             if shape[i] >= 2 {
-                apply(&mut want, u1);
+                apply(&mut want, us[1]);
             }
         }
-        let updates: Vec<Update> = if shape[i] == 0 {
-            Vec::new()
-        } else if shape[i] == 1 {
-            alloc::vec![mk_update(u0)]
-        } else {
-            alloc::vec![mk_update(u0), mk_update(u1)]
-        };
         ids[i] = kani::any();
-        cmds[i] = Some(CommandData {
-            id: cmd_id(ids[i]),
+        i += 1;
+    }
+    let mut buf_a = [mk_update(ua[0]), mk_update(ua[1])];
+    let mut buf_b = [mk_update(ub[0]), mk_update(ub[1])];
+    let len_a = if nc >= 1 { shape[0] } else { 0 };
+    let len_b = if nc >= 2 { shape[1] } else { 0 };
+    let mut cbuf = [
+        CommandData {
+            id: cmd_id(ids[0]),
             priority: Priority::Basic(0),
             policy: None,
             data: Box::new([]),
-            updates,
-        });
-        i += 1;
-    }
-    p.commands = match (cmds[0].take(), cmds[1].take()) {
-        (Some(a), Some(b)) => alloc::vec![a, b],
-        (Some(a), None) => alloc::vec![a],
-        _ => Vec::new(),
-    };
-    assert!(npend <= 1);
-    p.current_updates = if npend == 1 {
-        alloc::vec![mk_update(any_upd())]
-    } else {
-        Vec::new()
-    };
+            updates: unsafe { Vec::from_raw_parts(buf_a.as_mut_ptr(), len_a, 2) },
+        },
+        CommandData {
+            id: cmd_id(ids[1]),
+            priority: Priority::Basic(0),
+            policy: None,
+            data: Box::new([]),
+            updates: unsafe { Vec::from_raw_parts(buf_b.as_mut_ptr(), len_b, 2) },
+        },
+    ];
+    let mut pbuf = [mk_update(any_upd())];
+    core::mem::forget(core::mem::replace(&mut p.commands, unsafe {
+        Vec::from_raw_parts(cbuf.as_mut_ptr(), nc, 2)
+    }));
+    core::mem::forget(core::mem::replace(&mut p.current_updates, unsafe {
+        Vec::from_raw_parts(pbuf.as_mut_ptr(), npend, 1)
+    }));
     let r = p.revert(Checkpoint { index: idx });
     assert!(r.is_ok());
     // commands: exactly the first idx, in order; nothing pending any more
@@ -475,6 +482,10 @@ fn revert_step(shape: &[usize], npend: usize, ntop: usize, nbase: Option<usize>,
         check_exact(&p, &want);
     }
     core::mem::forget(p);
+    core::mem::forget(cbuf);
+    core::mem::forget(buf_a);
+    core::mem::forget(buf_b);
+    core::mem::forget(pbuf);
     seen
 }
 
